@@ -303,6 +303,20 @@ M("C17", "help_token_not_restored", "resolver/help_resolver.py",
   "                args.tokens.insert(0, self._help_command_name)", "                pass")
 
 
+# ---- repairs of the sixth round, undone --------------------------------------------------------------
+M("C12", "config_event_not_initialised", "api/event/config_event.py",
+  "        super(ConfigEvent, self).__init__()\n\n", "")
+M("C04", "report_needs_working_directory", "ui/components/exception_trace.py",
+  "        try:\n            cwd = os.getcwd()\n        except OSError:\n            # The current directory no longer exists: paths stay absolute\n            cwd = None\n",
+  "        cwd = os.getcwd()\n")
+M("C20", "report_needs_working_directory", "ui/components/exception_trace.py",
+  "        try:\n            cwd = os.getcwd()\n        except OSError:\n            # The current directory no longer exists: paths stay absolute\n            cwd = None\n",
+  "        cwd = os.getcwd()\n")
+M("C16", "format_kept_across_start_max", "ui/components/progress_bar.py",
+  "            self._format = None\n\n        self.display()", "\n        self.display()")
+M("C17", "help_alias_rewrites_raw_args_equivalent_on_default_config", "resolver/help_resolver.py",
+  "args.tokens and args.tokens[0] == self._help_command_name", "args.tokens and (args.tokens[0] == self._help_command_name)", expect="silent")
+
 def run_one(m, runs):
     prop, name, path, old, new, expect = m
     tmp = tempfile.mkdtemp(prefix="dsim-mut-")
@@ -336,16 +350,21 @@ def run_one(m, runs):
 
 def main(argv):
     runs = None
+    only = None
     props = []
     it = iter(argv)
     for a in it:
         if a == "--runs":
             runs = int(next(it))
+        elif a == "--only":
+            only = next(it)  # substring of the mutant's name
         else:
             props.append(a.upper())
     bad = 0
     for m in MUTANTS:
         if props and m[0] not in props:
+            continue
+        if only and only not in m[1]:
             continue
         r = run_one(m, runs)
         print("%s %-28s expect=%-6s %s" % (m[0], m[1], m[5], r))
